@@ -1282,6 +1282,10 @@ func (s *sharedEntryAttributes) validateMandatoryWithKeys(ctx context.Context, l
 	}
 
 	for _, c := range s.filterActiveChoiceCaseChilds() {
+		// a list entry that is removed as a whole has no mandatory childs any more
+		if !c.remainsToExist() || c.shouldDelete() {
+			continue
+		}
 		c.validateMandatoryWithKeys(ctx, level-1, attribute, resultChan)
 	}
 
